@@ -215,6 +215,23 @@ TRUSTED_BASE = [
     "(Rbacx.FileSrc.Sim.prim over execOp / partialOp, on the paths the code passes) — what mkstemp / rename / unlink do to a real file system "
     "is tied by the fault-injection run on real files; _hash_file (chunked sha256) and parse_policy_text stay external (an abstract tag function / "
     "the parser oracle)",
+    "where a check uses the translated decision-cache protocol of the engine (C08, C09: Guard._normalize_env_for_cache / _cache_key, the cache range "
+    "of Guard._evaluate_core_async, Guard.set_policy with _recompute_etag / clear_cache in place; harness/pytolean_proto.py, plugin "
+    "extractors/src_translation_cacheproto.py, obligation Run/C08_translated.lean, validated against CPython on every C08 run by "
+    "Run/SrcEvalCacheProto.lean): the trusted readings are — control in continuation-passing style over an explicit stack of enclosing blocks "
+    "(try handler, finally body, with-lock), an external call (cache.get / cache.set / cache.clear / the awaited self._decide_async / compile_policy) "
+    "a parameter giving its OUTCOME and the case split emitted at the point of the call, so that a variable keeps what it had been assigned when "
+    "the exception was raised; expressions outside external calls restricted to a syntactic class that cannot raise on JSON-shaped values; "
+    "`with self._policy_lock:` transparent in the evaluation range (sequential reading) and acq / rel effects on entry and every exit in set_policy; "
+    "every textual read of self._policy_gen in the range an input of its own; ContextVar set / reset left out (they do not raise, no value depends on "
+    "them); an `if` whose test was decided on the path and whose variables were not assigned since resolved statically; self.<m>() of a spliced "
+    "method translated in place; `compile_policy is not None` a Bool parameter; json.dumps(X, sort_keys=True, separators=(',', ':'), default=str, "
+    "ensure_ascii=False) — accepted with exactly these keywords only — the model's canonJson on float-free values and an oracle parameter elsewhere, "
+    "json.dumps(X, sort_keys=True).encode('utf-8') and hashlib.sha3_256(X).hexdigest() opaque outcome parameters; lean/Rbacx/Model/PyProto.lean; "
+    "hypotheses of the equalities: the etag a str or None, _policy_gen an int, a float-free env for the key; by hand remain _decide_async, the cache "
+    "object's own behaviour (the built-in one: C15_translated), that the world's key / cache answers / decision of CacheHist.stepCached are the "
+    "translated key / the cache object's answers / _decide_async's result (hypotheses of engine_cache_proto_stepCached, tied by the differential "
+    "histories), the interleaving semantics of Model/Conc.lean and the evaluator's access order outside the range (C09_shape)",
 ]
 
 
